@@ -2,6 +2,20 @@ use parol::analysis::k_decision::{FirstCache, FollowCache};
 use parol::obtain_grammar_config_from_string;
 
 pub fn run(args: &[String]) -> i32 {
+    if args[0] == "tokens" {
+        let par = std::fs::read_to_string(&args[1]).unwrap();
+        let text = args[2].replace("\\n", "\n").replace("\\r", "\r");
+        let (_g, b) = crate::bind::generate_and_bind(&par, 3, &crate::bind::GenCfg::default()).map_err(|e| e.msg).unwrap();
+        for t in crate::props::scanner::deliver(&b, &text, 1, &[]).unwrap() {
+            crate::outln!("{:?}", t);
+        }
+        let o = b.parse(&text, &crate::bind::RunOpts::default());
+        crate::outln!("ok={} err={:?}", o.ok, o.err);
+        let mut l = vec![];
+        if let Some(t) = &o.tree { t.leaves(&mut l); }
+        for t in l { crate::outln!("leaf {:?}", t); }
+        return 0;
+    }
     let par = std::fs::read_to_string(&args[0]).unwrap();
     let k: usize = args[1].parse().unwrap();
     let gc = obtain_grammar_config_from_string(&par, false).unwrap();
